@@ -164,10 +164,20 @@ def ledger_wildcard_layer(ctx):
     golden = json.load(open(os.path.join(os.path.dirname(os.path.dirname(os.path.dirname(os.path.abspath(__file__)))), 'lean', 'golden', 'facts.json')))
     text, entries, errors, options = ledgers.gen_ledger(ctx.rng, ntxn=6)
     conn = ledgers.connect(entries, errors, options)
+    # other statement kinds have been compiled on the connection before (they must leave no trace)
+    for other in ('PRINT', 'BALANCES', "JOURNAL 'Assets'", 'PRINT FROM year >= 2020'):
+        try:
+            conn.compile(conn.parse(other))
+        except Exception as exc:  # noqa: BLE001
+            ctx.record_violation('statement-kind-raises', '%s: %r' % (other, exc))
     for tname, t in sorted(golden['tables'].items()):
         if not tname or tname not in conn.tables:
             continue
-        for q in ('SELECT * FROM #%s' % tname, 'SELECT * FROM (SELECT * FROM #%s)' % tname):
+        queries = ['SELECT * FROM #%s' % tname, 'SELECT * FROM (SELECT * FROM #%s)' % tname]
+        if tname == 'postings':
+            # the table a statement without FROM selects from
+            queries += ['SELECT *', 'SELECT * WHERE number > 0', 'SELECT * FROM year >= 1900', 'SELECT * FROM (SELECT *)']
+        for q in queries:
             ctx.count('ledger-wildcard')
             ctx.evaluations += 1
             try:
